@@ -24,7 +24,7 @@
 EXTENDS Engine, Json, SequencesExt
 
 CONSTANTS Variant,      \* "ref" | "built"
-          Setup,        \* operations executed before the threads start
+          Setup,        \* operations executed before the threads start (SetupDocs for the program tuples of ProgsDocs)
           ProgChoices   \* set of tuples of programs, one program per thread
 
 VARIABLES prog,   \* the tuple of programs chosen
@@ -44,7 +44,9 @@ Threads == 1..Len(prog)
 \* ---- pools ------------------------------------------------------------------
 D(k, tag, ext, blk, rich) == [k |-> k, tag |-> tag, ext |-> ext, blk |-> blk, rich |-> rich]
 Ld(n, def) == [op |-> "Load", n |-> n, def |-> def]
-Rn(n, e) == [op |-> "Render", n |-> n, e |-> e, data |-> [v |-> "val2", items |-> <<"n3">>, c |-> TRUE]]
+Rn(n, e) == [op |-> "Render", n |-> n, e |-> e, data |-> [v |-> "val2", items |-> <<"n3">>, c |-> TRUE, ik |-> "map"]]
+RnD(n, e, d) == [op |-> "Render", n |-> n, e |-> e, data |-> d]
+An(n) == [op |-> "Analyze", n |-> n]
 B12 == {"b1", "b2"}
 
 DefR   == D("str", "R",   "",     B12,    FALSE)
@@ -57,6 +59,10 @@ DefCB2 == D("str", "CB2", "base", B12,    FALSE)
 DefDB  == D("doc", "DB",  "base", B12,    FALSE)
 DefGA  == D("str", "GA",  "A",    {"b2"}, FALSE)
 DefX   == D("str", "X",   "",     {"b1"}, FALSE)
+DefRR  == D("doc", "RR",  "",     {"b1"}, TRUE)     \* a document with loop / conditional / image paragraphs and all three tables
+DefRF  == D("file","RF",  "",     {"b1"}, TRUE)
+DefFA  == D("file","FA",  "base", B12,    FALSE)
+DefDA  == D("doc", "DA",  "base", B12,    FALSE)
 
 SetupBaseA == <<Ld("base", DefR), Ld("A", DefCA)>>
 SetupFlat  == <<Ld("base", DefR), Ld("A", DefX)>>      \* no inheritance anywhere
@@ -84,6 +90,27 @@ ProgsFlat == (FlatWriters \X Readers2) \cup (FlatWriters \X FlatWriters)
 ProgsFlatQuick == ({ <<Ld("base", DefRD)>>, <<Ld("A", DefR2)>>, <<[op |-> "Remove", n |-> "A"]>>, <<[op |-> "Clear"]>> }
                      \X { <<Rn("base", "tpl")>>, <<Rn("A", "doc")>>, <<Rn("base", "tpl"), Rn("A", "doc")>> })
                   \cup ({ <<Ld("A", DefR2)>>, <<Ld("base", DefRD)>> } \X { <<[op |-> "Clear"]>>, <<[op |-> "Remove", n |-> "A"], Ld("A", DefX)>> })
+
+\* document templates rendered by several threads at once, every thread with data of its own: each render
+\* fills loops, conditionals, table rows and in-cell loops from ITS data only (nothing of a render in
+\* progress may live on the engine)
+DataA == [v |-> "va", items |-> <<"a1", "a2">>, c |-> TRUE,  ik |-> "map"]
+DataB == [v |-> "vb", items |-> <<"b1">>,       c |-> FALSE, ik |-> "map"]
+DataC == [v |-> "vc", items |-> <<"c1", "c2">>, c |-> TRUE,  ik |-> "smap"]
+SetupDocs == <<Ld("base", DefRR), Ld("A", DefFA)>>
+Pairs(S) == {<<S[i], S[j]>> : i \in 1..Len(S), j \in 1..Len(S)} \ UNION {{<<S[i], S[j]>> : j \in 1..(i - 1)} : i \in 1..Len(S)}   \* unordered pairs, a program with itself included
+RendersDQ == << <<RnD("base", "tpl", DataA)>>, <<RnD("base", "rnd", DataB)>>,
+                <<RnD("A", "tpl", DataB), RnD("base", "tpl", DataA)>>, <<An("base"), RnD("base", "rnd", DataC)>> >>
+RendersDT == RendersDQ \o << <<RnD("base", "doc", DataA)>>, <<RnD("A", "rnd", DataC), RnD("A", "doc", DataB)>>,
+                             <<RnD("base", "tpl", DataB), RnD("base", "tpl", DataB), RnD("base", "tpl", DataB)>> >>
+WritersD == { <<Ld("base", DefRF)>>, <<Ld("A", DefDA)>>, <<[op |-> "Clear"]>> }
+SeqSet(S) == {S[i] : i \in 1..Len(S)}
+ProgsDocsQuick == Pairs(RendersDQ) \cup ({<<Ld("base", DefRF)>>} \X SeqSet(RendersDQ))
+ProgsDocs      == Pairs(RendersDT) \cup (WritersD \X SeqSet(RendersDT))
+\* the program tuples over document templates start from SetupDocs, all others from the constant Setup
+SetupOf(p) == IF p \in ProgsDocs THEN SetupDocs ELSE Setup
+ProgsQuickAll    == ProgsQuick \cup ProgsDocsQuick
+ProgsThoroughAll == ProgsThorough \cup ProgsDocs
 
 \* ---- helpers ------------------------------------------------------------------
 RECURSIVE RunSeq(_, _), RunSeqB(_, _)
@@ -131,7 +158,7 @@ Begin(t) ==
               ELSE /\ ph' = [ph EXCEPT ![t] = "got"]
                    /\ loc' = [loc EXCEPT ![t] = f]
                    /\ UNCHANGED <<pc, lk, st, hs, done>>
-         [] OTHER ->                                    \* Remove, Clear, Get, Validate: one critical section
+         [] OTHER ->                                    \* Remove, Clear, Get, Validate, Analyze: one critical section
               /\ st' = Apply(st, op) /\ hs' = ApplyB(hs, op)
               /\ Finish(t, {})
               /\ UNCHANGED lk
@@ -171,11 +198,11 @@ RenderGo(t) ==
          f  == loc[t]
          def == IF Built THEN hs.heap[f.id].def ELSE f.v.def
          i  == pc[t] + 1 IN
-       IF f.ee = "tpl" /\ def.k = "doc"
+       IF EntryCode(f.ee) = "tpl" /\ IsDoc(def)
        THEN \* substitution in a copy of the base document: no block is read
             /\ Finish(t, {[t |-> t, i |-> i, res |-> RenderWith(def, def, <<>>, op.data, "tpl"), exp |-> f.exp]})
             /\ UNCHANGED <<lk, st, hs>>
-       ELSE IF f.ee = "tpl" /\ Built
+       ELSE IF EntryCode(f.ee) = "tpl" /\ Built
        THEN /\ lk = 0
             /\ LET g == Fetch(op) IN
                  IF g.id = 0
@@ -217,8 +244,8 @@ Init == /\ prog \in ProgChoices
         /\ ph = [t \in 1..Len(prog) |-> "idle"]
         /\ loc = [t \in 1..Len(prog) |-> NoLoc]
         /\ lk = 0
-        /\ st = RunSeq(InitSt, Setup)
-        /\ hs = RunSeqB(InitHs, Setup)
+        /\ st = RunSeq(InitSt, SetupOf(prog))
+        /\ hs = RunSeqB(InitHs, SetupOf(prog))
         /\ done = {}
         /\ sched = <<>>
 
@@ -238,7 +265,7 @@ Inv_NoRace == \A t, u \in Threads : t # u => NextRead(t) \cap NextWrite(u) = {}
 \* somebody can always move until everybody has finished
 CanStep(t) == \/ (~Finished(t) /\ ph[t] = "idle" /\ lk = 0)
               \/ ph[t] \in {"locked", "writing", "reading", "got2"}
-              \/ (ph[t] = "got" /\ (lk = 0 \/ ~(Built /\ CurOp(t).e = "tpl" /\ hs.heap[loc[t].id].def.k = "str")))
+              \/ (ph[t] = "got" /\ (lk = 0 \/ ~(Built /\ EntryCode(CurOp(t).e) = "tpl" /\ ~IsDoc(hs.heap[loc[t].id].def))))
 Inv_NotStuck == AllDone \/ \E t \in Threads : CanStep(t)
 
 \* the threads never disagree with the reference machine about what is cached
@@ -247,7 +274,7 @@ Inv_CacheAgree == lk # 0 \/ \A n \in NamePool :
 
 \* ---- generation: print each complete schedule once -------------------------------------------
 ConcSeq(ops) == [i \in 1..Len(ops) |-> Conc(ops[i])]
-EmitC == ~AllDone \/ PrintT(<<"WZCASE", ToJson([setup |-> ConcSeq(Setup),
+EmitC == ~AllDone \/ PrintT(<<"WZCASE", ToJson([setup |-> ConcSeq(SetupOf(prog)),
                                                progs |-> [t \in Threads |-> ConcSeq(prog[t])],
                                                sched |-> sched,
                                                names |-> SetToSeq(NamePool), pdata |-> ProbeData])>>)
